@@ -298,7 +298,9 @@ def scale_work(item):
                     if with_grandchild:
                         history += [["attach", 1, 3, None]]
                     history += [["attach", 0, 1, index]]
-                    history += [["declare", 0, "late", "u-late"], ["remove", 0, P[0]]]
+                    history += [["declare", 0, "late", "u-late"], ["remove", 0, P[0]], ["remove", 1, "late"]]
+                    if with_grandchild:
+                        history += [["declare", 3, "late", "own-late"]]       # re-declared below the node that lost it
                     n += 1
                     try:
                         nodes_, model_ = replay_history(4, history)
